@@ -779,6 +779,7 @@ impl LinkRelay<OutputHandle> {
             LinkRelay::Sender { .. } => Err(LinkRelayError::TransferFrameToSender),
             LinkRelay::Receiver {
                 tx,
+                flow_state,
                 receiver_settle_mode,
                 more,
                 ..
@@ -787,6 +788,12 @@ impl LinkRelay<OutputHandle> {
                 let delivery_id = transfer.delivery_id;
                 let delivery_tag = transfer.delivery_tag.clone();
                 let transfer_more = transfer.more;
+
+                // The last frame of a delivery: the link counts the delivery when the
+                // application receives it
+                if !transfer.more && !transfer.aborted {
+                    flow_state.on_delivery_forwarded();
+                }
 
                 tx.send(LinkFrame::Transfer {
                     input_handle: InputHandle::from(transfer.handle.clone()),
